@@ -955,10 +955,10 @@ class Scores:
                     return np.random.poisson(size=size, lam=n * p)
 
             nb_pos_selected = _single_pass_sampling(
-                size=self.nb_hard_pos, n=nb_hard_pos, p=1.0 / self.nb_hard_pos
+                size=self.nb_hard_pos, n=nb_hard_pos, p=1.0 / max(self.nb_hard_pos, 1)
             )
             nb_neg_selected = _single_pass_sampling(
-                size=self.nb_hard_neg, n=nb_hard_neg, p=1.0 / self.nb_hard_neg
+                size=self.nb_hard_neg, n=nb_hard_neg, p=1.0 / max(self.nb_hard_neg, 1)
             )
 
             pos_idx = np.repeat(np.arange(self.nb_hard_pos), nb_pos_selected)
